@@ -204,36 +204,51 @@ func runEngineCase(r *runner, flows []Flow, txns []Txn) {
 		o.MonitorChecked(2)
 		mini := Case{Flows: flows, AddErr: k.AddErr, Obs: []Obs{ob}, Engine: true}
 		if execErr != nil {
-			o.Hit(c.Hit{Suite: suite, Signature: "engine-error:ExecuteFlow", Demanded: "ExecuteFlow succeeds",
+			o.Hit(c.Hit{Suite: suiteLoaded, Signature: "engine-error:ExecuteFlow", Demanded: "ExecuteFlow succeeds",
 				Observed: execErr.Error(), Case: mini})
 		}
 		if !t.Resp && fmt.Sprint(inv) != fmt.Sprint(sel) {
-			o.Hit(c.Hit{Suite: suite, Signature: "invocations-differ:executeReq",
+			o.Hit(c.Hit{Suite: suiteLoaded, Signature: "invocations-differ:executeReq",
 				Demanded: fmt.Sprintf("GetFlowInvocations counts exactly the flows whose processors ran (%v)", sel),
 				Observed: fmt.Sprintf("invocation deltas %v", inv), Case: mini})
 		}
 		if len(sel) == 0 {
 			if acted {
-				o.Hit(c.Hit{Suite: suite, Signature: "no-match-action:ExecuteFlow",
+				o.Hit(c.Hit{Suite: suiteLoaded, Signature: "no-match-action:ExecuteFlow",
 					Demanded: "a transaction for which no flow is selected is passed through with no action at all",
 					Observed: fmt.Sprintf("%d actions, %d processor runs, invocations %v", nact, len(events), inv), Case: mini})
 			}
 		}
 	}
-	idx := o.Case(suite, coqCase(&k), k, true)
+	idx := o.Case(suiteLoaded, coqCase(&k), k, true)
 	o.Count("gen=engine")
 	o.CountN("transactions", len(k.Obs))
 	for i := range k.Obs {
 		o.MonitorChecked(1)
 		for _, f := range checkSelection(k.Flows, k.AddErr, &k.Obs[i]) {
 			mini := Case{Flows: k.Flows, AddErr: k.AddErr, Obs: []Obs{k.Obs[i]}, Engine: true}
-			o.Hit(c.Hit{Suite: suite, Index: idx, Signature: f.sig, Demanded: f.demanded, Observed: f.observed, Case: mini})
+			o.Hit(c.Hit{Suite: suiteLoaded, Index: idx, Signature: f.sig, Demanded: f.demanded, Observed: f.observed, Case: mini})
 		}
+	}
+}
+
+// engineTargeted: flow sets loaded by Stream.Initialize from flow files whose
+// filters carry (1) status_code lists in the order written (not ascending,
+// duplicates) and (2) upper-case letters in host labels / literal path segments,
+// incl. two flows that differ only in letter case; every listed and unlisted
+// status, both spellings of every URL.
+func engineTargeted(r *runner) {
+	for _, sl := range statusListSets(r.o.Scale(5, 14, 14)) {
+		runEngineCase(r, sl, statusTxns([]string{"a/b", "a/b/c"}, false))
+	}
+	for _, pats := range letterCaseSets(r.o.Scale(6, 100, 100)) {
+		runEngineCase(r, mkFlows(pats, nil), txnsFor(letterCaseURLs(pats), false))
 	}
 }
 
 func engineSample(r *runner) {
 	o := r.o
+	engineTargeted(r)
 	sets := [][]Flow{
 		mkFlows([]string{"a/b", "a/b"}, []constraint{constraintVariants[0], constraintVariants[5]}),
 		mkFlows([]string{"a/b", "a/b"}, []constraint{constraintVariants[5], constraintVariants[0]}),
